@@ -30,6 +30,10 @@ const crossSrcU = `package u
 
 import "zzmod/d"
 
+// the importer's OWN type T with its own constructor NewT: identity, not the name, decides
+//«uctor»
+type T struct{ g int }
+
 func NewT() *d.T {
 	t := &d.T{} // U-SAMENAME-LIT
 	t.F = 1 // U-SAMENAME-ASSIGN
@@ -65,7 +69,7 @@ func ZZCrossImmCtor() {
 	ctor := nd.EnumPad("ctor", " @constructor NewT", " plain")
 	mut := nd.EnumPad("mut", " @mutable", " plain")
 	op := nd.EnumPad("op", "+=", "<<=", "&^=")
-	holes := []nd.Hole{{"annT", annT}, {"ctor", ctor}, {"mut", mut}, {"op", op}}
+	holes := []nd.Hole{{"annT", annT}, {"ctor", ctor}, {"mut", mut}, {"op", op}, {"uctor", " @constructor NewT"}}
 	files := []nd.File{{Pkg: "zzmod/d", Name: "d.go", Src: crossSrcD}, {Pkg: "zzmod/u", Name: "u.go", Src: crossSrcU}}
 	prog := nd.LoadProgram(files, holes)
 	cfg := config.Default()
